@@ -34,6 +34,7 @@ type replayTemplate struct {
 	Small []*Expr // extra constraints asked of the solver so that the counterexample is small enough to replay
 	Body  string
 	Path  string
+	Only  []string // when set: the template replays only obligations whose name contains one of these
 }
 
 func loadReplayTemplates(dir string) map[string]*replayTemplate {
@@ -62,6 +63,8 @@ func loadReplayTemplates(dir string) map[string]*replayTemplate {
 				inBody = true
 			case strings.HasPrefix(t, "#func "):
 				rt.Func = strings.TrimSpace(t[6:])
+			case strings.HasPrefix(t, "#only "):
+				rt.Only = append(rt.Only, strings.TrimSpace(t[6:]))
 			case strings.HasPrefix(t, "#pkg "):
 				rt.Pkg = strings.TrimSpace(t[5:])
 			case strings.HasPrefix(t, "#small "):
@@ -311,6 +314,17 @@ var outRe = regexp.MustCompile(`(\w+)=(\S+)`)
 func tryReplay(o *checkOpts, ob *Obligation) *replayResult {
 	if ob.rt == nil || len(ob.valueKeys) == 0 {
 		return nil
+	}
+	if len(ob.rt.Only) > 0 {
+		match := false
+		for _, sub := range ob.rt.Only {
+			if strings.Contains(ob.Name, sub) {
+				match = true
+			}
+		}
+		if !match {
+			return nil
+		}
 	}
 	if len(ob.smallTerms) > 0 && ob.tr != nil {
 		// ask for a small counterexample of the same obligation
